@@ -487,8 +487,8 @@ pub fn peermap_announce_step<I: KIp, const N: usize, const B: usize, const G: u8
         assert!(unsafe { STAT_LOG_LEN } == 0, "statistics messages sent although peer_clients is off");
     }
 
-    kani::cover!(was_present && !stopped, "re-announce of a stored peer");
-    kani::cover!(was_present && stopped, "stop of a stored peer");
+    kani::cover!(N == 0 || (was_present && !stopped), "re-announce of a stored peer");
+    kani::cover!(N == 0 || (was_present && stopped), "stop of a stored peer");
     kani::cover!(!was_present && !stopped, "new peer");
     std::mem::forget(resp);
     std::mem::forget(m);
